@@ -9,6 +9,7 @@ operations `o : Gen.PlotOps D A F M C Z` (lean/XyzModel/Gen/DefaultPlotSrc.lean)
                                                      arrays taken, broadcast + flatten, the mask, what is yielded, _c_cols
     plGenX         prepare_x_vals_histogram.gen_x    the histogram generator
     plColorNorm    Plotter.calc_color_norm           the limits handed to the normalisation (zlims / finite data range / caller's vmin, vmax)
+    plRowCol       calc_row_col_datasets             the grid of `.loc` selectors, row by row, and its shape
     plLoopNexts    LinePlot.plot_lines / Scatter.plot_scatter / Histogram.plot_histogram: the iterators advanced by `next(..)`
                                                      once per yielded series (unconditionally / conditionally)
 
@@ -812,6 +813,85 @@ def a_plColorNorm(T):
             + '\n'.join(lets) + f'\n  ({out[0][0]}, {out[0][1]})')
 
 
+# ============================================================================================ calc_row_col_datasets
+def a_plRowCol(T):
+    """the grid of selections: per variant of (row, col) given / None the body is run symbolically (tests on `row is None`
+    decided by the variant): `ds[row].values` = the coordinate values, `len`, nested list comprehensions of `ds.loc[{..}]`
+    = the selector dicts, in order.  Result: (grid of selectors, number of rows, number of columns)"""
+    f = find(T['core'], ['calc_row_col_datasets'])
+    names = [a.arg for a in f.args.args]
+    if names != ['ds', 'row', 'col'] or f.args.vararg or f.args.kwarg: raise NotFound('calc_row_col_datasets parameters')
+
+    class Unbound(Exception): pass
+
+    def static(e, env):
+        if isinstance(e, ast.Compare) and len(e.ops) == 1 and isinstance(e.ops[0], (ast.Is, ast.IsNot)) and isinstance(e.left, ast.Name) \
+                and e.left.id in ('row', 'col') and isinstance(e.comparators[0], ast.Constant) and e.comparators[0].value is None:
+            r = env[e.left.id] is None
+            return r if isinstance(e.ops[0], ast.Is) else not r
+        if isinstance(e, ast.UnaryOp) and isinstance(e.op, ast.Not): return not static(e.operand, env)
+        if isinstance(e, ast.BoolOp):
+            vs = [static(v, env) for v in e.values]
+            return all(vs) if isinstance(e.op, ast.And) else any(vs)
+        raise Untranslatable('test ' + _u(e)[:60])
+
+    def ex(e, env):
+        """(term, type)  types: str, listZ, Z, nat, sel, list(<t>)"""
+        if isinstance(e, ast.Name):
+            if e.id not in env: raise Unbound(e.id)
+            if env[e.id] is None: raise Untranslatable('use of None ' + e.id)
+            return env[e.id]
+        if isinstance(e, ast.Constant) and isinstance(e.value, int) and not isinstance(e.value, bool): return str(e.value), 'nat'
+        if isinstance(e, ast.Attribute) and e.attr == 'values' and isinstance(e.value, ast.Subscript) and _u(e.value.value) == 'ds':
+            k, kt = ex(e.value.slice, env)
+            if kt == 'str': return f'(o.coordValues ds {k})', 'listZ'
+        if isinstance(e, ast.Call) and _u(e.func) == 'len' and len(e.args) == 1 and not e.keywords:
+            a, at = ex(e.args[0], env)
+            if at == 'listZ' or at.startswith('list('): return f'{a}.length', 'nat'
+        if isinstance(e, ast.Subscript) and _u(e.value) == 'ds.loc' and isinstance(e.slice, ast.Dict) and e.slice.keys and None not in e.slice.keys:
+            items = []
+            for k, v in zip(e.slice.keys, e.slice.values):
+                kt, ktt = ex(k, env); vt, vtt = ex(v, env)
+                if ktt != 'str' or vtt != 'Z': raise Untranslatable('selector ' + _u(e.slice)[:60])
+                items.append(f'({kt}, {vt})')
+            return '[' + ', '.join(items) + ']', 'sel'
+        if isinstance(e, ast.List):
+            parts = [ex(x, env) for x in e.elts]
+            if parts and len({t for _, t in parts}) == 1: return '[' + ', '.join(p for p, _ in parts) + ']', f'list({parts[0][1]})'
+        if isinstance(e, ast.ListComp) and len(e.generators) == 1 and not e.generators[0].ifs and isinstance(e.generators[0].target, ast.Name):
+            it, itt = ex(e.generators[0].iter, env)
+            if itt != 'listZ': raise Untranslatable('comprehension over ' + itt)
+            v = e.generators[0].target.id
+            env2 = dict(env); env2[v] = (lname(v), 'Z')
+            b, bt = ex(e.elt, env2)
+            return f'({it}.map fun {lname(v)} => {b})', f'list({bt})'
+        raise Untranslatable('expression ' + _u(e)[:60])
+
+    def run(stmts, env):
+        for s in stmts:
+            if _is_doc(s) or isinstance(s, ast.Pass): continue
+            if isinstance(s, ast.If):
+                r = run(s.body if static(s.test, env) else s.orelse, env)
+                if r is not None: return r
+                continue
+            if isinstance(s, ast.Assign) and len(s.targets) == 1 and isinstance(s.targets[0], ast.Name) and s.targets[0].id not in names:
+                env[s.targets[0].id] = ex(s.value, env); continue
+            if isinstance(s, ast.Return) and isinstance(s.value, ast.Tuple) and len(s.value.elts) == 3:
+                (g, gt), (a, at), (b, bt) = (ex(x, env) for x in s.value.elts)
+                if gt != 'list(list(sel))' or at != 'nat' or bt != 'nat': raise Untranslatable(f'returns ({gt}, {at}, {bt})')
+                return f'some ({g}, {a}, {b})'
+            raise Untranslatable('statement ' + _u(s)[:60])
+        return None
+    out = ['', '  match row, col with']
+    for rv, cv in ((True, True), (True, False), (False, True)):
+        env = {'row': ('row', 'str') if rv else None, 'col': ('col', 'str') if cv else None}
+        r = run(_body(f), env)
+        if r is None: raise Untranslatable('a path returns nothing')
+        out.append(f'  | {"some row" if rv else "none"}, {"some col" if cv else "none"} => {r}')
+    out.append('  | none, none => none')
+    return '\n'.join(out)
+
+
 _OPS = '{D A F M C Z : Type} (o : PlotOps D A F M C Z)'
 ANCHORS = [
     ('plZVals', _OPS + ' (ds : D) (zCoo : Option String) (yCoo xCoo : NameArg) (grid : Bool) (mode : String) : '
@@ -824,5 +904,6 @@ ANCHORS = [
     ('plGenX', _OPS + ' (ds : D) (zVals : List (PZ Z)) (multiVar : Bool) (xCoo yCoo : String) (zCoo cCoo yErr xErr : Option String) '
      '(mode : String) : Except PErr (List (List (String × F)) × List C)', a_plGenX),
     ('plLoopNexts', ': List (String × List String × List String)', a_plLoopNexts),
+    ('plRowCol', _OPS + ' (ds : D) (row col : Option String) : Option (List (List (List (String × Z))) × Nat × Nat)', a_plRowCol),
     ('plColorNorm', '(numeric : Bool) (vmin vmax : Option Bool) (zlimLo zlimHi : Bool) : Option LimV × Option LimV', a_plColorNorm),
 ]
